@@ -21,11 +21,12 @@ def assert_valid_comodo(ds):
 
 
 def get_all_axes(ds):
-    axes = set()
+    # unique axis names in order of first appearance (a set would iterate in hash order)
+    axes = {}
     for d in ds.dims:
         if "axis" in ds[d].attrs:
-            axes.add(ds[d].attrs["axis"])
-    return axes
+            axes[ds[d].attrs["axis"]] = None
+    return list(axes)
 
 
 def get_axis_coords(ds, axis_name):
